@@ -152,7 +152,8 @@ def check_pl(case):
 
 
 # ------------------------------------------------------------------ threshold_at_metric
-METRICS = ["fnr", "fpr", "tpr", "topr", "tonr", "call-absdiff", "call-sum", "call-npv"]
+METRICS = ["fnr", "fpr", "tpr", "tnr", "topr", "tonr", "tar", "frr", "trr", "far", "acceptance_rate",
+           "rejection_rate", "call-absdiff", "call-sum", "call-npv"]
 
 
 def _metric(name):
@@ -167,11 +168,11 @@ def _metric(name):
 
 @st.composite
 def _tam_cases(draw):
-    s = draw(gen.score_sets(min_pos=1, min_neg=1, max_size=8, modes=("grid", "dyadic", "distinct", "int"),
-                            max_easy=10))
+    s = draw(gen.score_sets(min_pos=0, min_neg=0, max_size=8, modes=("grid", "dyadic", "distinct", "int"),
+                            max_easy=10))  # one class may be empty
     sc, ec = draw(gen.CONFIG)
     pk = draw(st.sampled_from(["none", "none", "int", "array"]))
-    allv = sorted(set(map(float, s["pos"] + s["neg"])))
+    allv = sorted(set(map(float, s["pos"] + s["neg"]))) or [0.0]
     if pk == "int":
         points = draw(st.integers(2, 12))
     elif pk == "array":
@@ -201,7 +202,8 @@ def check_tam(case):
     if case.get("then_shift") and out["labels"] != ["rejected<2values"]:
         # the repository's notebooks re-assign a class's scores on an existing object
         # (`scores.neg = scores.neg - 0.15`); the object must then answer for the new scores
-        o.threshold_at_topr(0.5)
+        if len(s["pos"]) + len(s["neg"]) > 0:
+            o.threshold_at_topr(0.5)
         sh = case["then_shift"]
         o.neg = o.neg + dt(sh)
         out2 = _tam_compare(case, o, s["pos"], [v + sh for v in s["neg"]], "after o.neg = o.neg + shift: ")
@@ -220,7 +222,7 @@ def _tam_compare(case, o, pos, neg, tag):
     t_in = float(case["t"][0]) if case["scalar"] else np.asarray(case["t"], dtype=float)
     pk = case["pk"]
     pts_arg = None if pk == "none" else (case["points"] if pk == "int" else np.asarray(case["points"], dtype=float))
-    degenerate = (pk == "none" and len(allv) < 2) or (pk == "int" and allv[0] >= allv[-1])
+    degenerate = (pk == "none" and len(allv) < 2) or (pk == "int" and (not allv or allv[0] >= allv[-1]))
     ctx = f"{tag}metric={case['metric']} points={case['points']} config={case['sc']}/{case['ec']} pos={s['pos']} neg={s['neg']}"
     try:
         got = o.threshold_at_metric(t_in, metric, pts_arg)
@@ -237,6 +239,9 @@ def _tam_compare(case, o, pos, neg, tag):
         P = np.asarray(case["points"], dtype=float)
     f = getattr(Scores, metric) if isinstance(metric, str) else metric
     Y = np.asarray(f(o, P), dtype=float)
+    if np.isnan(Y).any():
+        # the metric is undefined for this object (its class is empty): nothing is claimed
+        return dict(nontrivial=False, labels=["metric-undefined(empty class)"])
     exp = invert_pl_function(P, Y, t_in)
     if case["scalar"]:
         require(isinstance(got, np.ndarray), "tam:scalar-not-bare-array", f"{ctx}: {type(got).__name__}")
